@@ -9,12 +9,22 @@
 
     Operations are executed one at a time here (the interleavings of the
     allocator are the subject of Tls/TlsKeysModel.v; set/get only touch the
-    calling thread's own tree).  Nothing links a tree slot to the incarnation
-    of the key it was written under: [key_delete] does not visit any tree. *)
+    calling thread's own tree).
+
+    Two variants of the source ([variant]): without generation tags nothing
+    links a tree slot to the incarnation of the key it was written under
+    ([key_delete] does not visit any tree) - this is the stale-value finding;
+    with generation tags ([v_tagged = true], layout [cfg_tagged]) every creation
+    increments the index' generation and a slot written under another
+    generation reads NULL. *)
 From Coq Require Import ZArith List Bool.
 From MT Require Import Tls.TlsTreeModel Tls.TlsKeysModel.
 Import ListNotations.
 Local Open Scope Z_scope.
+
+Record variant := mkVariant { v_tagged : bool; v_cfg : cfg }.
+Definition variant_plain : variant := mkVariant false cfg_plain.
+Definition variant_tagged : variant := mkVariant true cfg_tagged.
 
 Record sys := mkSys { sk : kst; sh : list Z; trees : list tree }.
 
@@ -33,21 +43,24 @@ Fixpoint set_tree (l : list tree) (t : nat) (x : tree) : list tree :=
   end.
 
 (** [None]: no such thread, or an assertion of the C code fails, or out of fuel *)
+Section Variant.
+Variable var : variant.
+
 Definition sys_step (s : sys) (o : sop) : option (sys * Z) :=
   match o with
   | KCreate d =>
-      match seq_op (sk s) (sh s) (Create d) with
+      match seq_op (v_tagged var) (sk s) (sh s) (Create d) with
       | Some (k', h', r) => Some (mkSys k' h' (trees s), r)
       | None => None
       end
   | KDelete k =>
-      match seq_op (sk s) (sh s) (Delete k) with
+      match seq_op (v_tagged var) (sk s) (sh s) (Delete k) with
       | Some (k', h', r) => Some (mkSys k' h' (trees s), if r =? ERR then EINVAL else 0)
       | None => None
       end
   | TSet t k v =>
       match nth_error (trees s) t with
-      | Some tr => match set tr k v with
+      | Some tr => match set (v_cfg var) (kgen (sk s)) tr k v with
                    | Some (tr', rc) => Some (mkSys (sk s) (sh s) (set_tree (trees s) t tr'), rc)
                    | None => None
                    end
@@ -55,7 +68,7 @@ Definition sys_step (s : sys) (o : sop) : option (sys * Z) :=
       end
   | TGet t k =>
       match nth_error (trees s) t with
-      | Some tr => match get tr k with
+      | Some tr => match get (kgen (sk s)) tr k with
                    | Some v => Some (s, v)
                    | None => None
                    end
@@ -89,7 +102,7 @@ Definition sys_init (nthreads : nat) : sys := mkSys kinit [] (repeat empty nthre
     are stored only under live keys *)
 Definition guardb (s : sys) (o : sop) : bool :=
   match o with
-  | KDelete k => forallb (fun tr => match get tr k with Some 0 => true | _ => false end) (trees s)
+  | KDelete k => forallb (fun tr => match get (kgen (sk s)) tr k with Some 0 => true | _ => false end) (trees s)
   | TSet _ k _ => existsb (Z.eqb k) (sh s)
   | _ => true
   end.
@@ -102,6 +115,8 @@ Fixpoint guarded_run (s : sys) (os : list sop) : bool :=
                             | None => false
                             end
   end.
+
+End Variant.
 
 (** the witness of the stale-value finding *)
 Definition stale_history : list sop :=
